@@ -2,17 +2,24 @@ package main
 
 // C35 — closing an agent connection always terminates the agent (DESIGN §5 C35).
 //
-// The real transport.NewStream wraps an exec.Cmd of this binary in role
-// fake-agent. The agent announces READY on stdout once its signal disposition is
-// installed, reports on stderr what it noticed (EOF on stdin, SIGTERM), and
-// terminates according to one of four behaviours. Close() must return
-// (control-relative bound, DESIGN §1) and the process must be gone afterwards.
-// Close latency is recorded, never judged.
+// The real transport.NewStream (with a non-nil standard error receiver, as
+// agent.Dial passes one) wraps an exec.Cmd of this binary in role fake-agent.
+// The agent announces READY on stdout once its signal disposition is installed,
+// reports on stderr what it noticed (EOF on stdin, SIGTERM), and terminates
+// according to one of four behaviours. Workload dimensions besides behaviour and
+// delays:
+//   - a descendant of the agent (role stderr-holder) that inherited the agent's
+//     stderr and outlives it, like an ssh ControlMaster helper;
+//   - a Write that is blocked on a full stdin pipe (agent not reading) at the
+//     moment Close is called;
+//   - a second Close issued while the first is still waiting for the agent.
+//
+// Every Close() must return (control-relative bound, DESIGN §1) and, when it
+// returns, the agent process must be gone. Close latency is recorded, never judged.
 
 import (
 	"bytes"
 	"fmt"
-	"io"
 	"os"
 	"os/exec"
 	"os/signal"
@@ -28,7 +35,15 @@ import (
 	"verif/internal/vk"
 )
 
-// ---------------------------------------------------------------- child role
+// ---------------------------------------------------------------- child roles
+
+// stderrHolderMain is the agent's descendant: it keeps the inherited stderr open
+// and outlives the agent (the monitor removes it when the case is over).
+func stderrHolderMain() {
+	signal.Ignore(syscall.SIGTERM, syscall.SIGHUP, syscall.SIGPIPE, syscall.SIGINT)
+	time.Sleep(150 * time.Second)
+	os.Exit(0)
+}
 
 // Behaviours: self (exits by itself after DELAY ms), stdin (exits DELAY ms after
 // stdin reaches EOF), term (ignores stdin EOF, exits DELAY ms after SIGTERM),
@@ -41,22 +56,35 @@ func fakeAgentMain() {
 	terms := make(chan os.Signal, 4)
 	signal.Notify(terms, syscall.SIGTERM)
 	signal.Ignore(syscall.SIGPIPE, syscall.SIGHUP)
-	eof := make(chan struct{})
-	go func() {
-		buf := make([]byte, 4096)
-		for {
-			n, err := os.Stdin.Read(buf)
-			if n > 0 {
-				// echo, so the parent can check that the stream carries data
-				os.Stdout.Write(buf[:n])
-			}
-			if err != nil {
-				note("GOT-EOF")
-				close(eof)
-				return
-			}
+	if os.Getenv("VERIF_C35_GRANDCHILD") == "1" {
+		gc := exec.Command(selfBin())
+		gc.Env = childEnv(roleEnv+"=stderr-holder", "VERIF_C35_GC_MARK="+os.Getenv("VERIF_C35_GC_MARK"))
+		gc.Stderr = os.Stderr // inherited; stdin and stdout are /dev/null
+		if err := gc.Start(); err == nil {
+			os.Stdout.WriteString(fmt.Sprintf("GC %d\n", gc.Process.Pid))
+			gc.Process.Release()
+		} else {
+			os.Stdout.WriteString("GC 0\n")
 		}
-	}()
+	}
+	eof := make(chan struct{})
+	if os.Getenv("VERIF_C35_NOREAD") != "1" {
+		go func() {
+			buf := make([]byte, 4096)
+			for {
+				n, err := os.Stdin.Read(buf)
+				if n > 0 {
+					// echo, so the parent can check that the stream carries data
+					os.Stdout.Write(buf[:n])
+				}
+				if err != nil {
+					note("GOT-EOF")
+					close(eof)
+					return
+				}
+			}
+		}()
+	}
 	os.Stdout.WriteString("READY\n")
 	switch behaviour {
 	case "self":
@@ -93,13 +121,16 @@ func fakeAgentMain() {
 // ---------------------------------------------------------------- parent
 
 type c35Case struct {
-	Index        int    `json:"case"`
-	Behaviour    string `json:"behaviour"`
-	DelayMs      int    `json:"agent_delay_ms"`
-	TermDelayMs  int    `json:"termination_delay_ms"`
-	PendingRead  bool   `json:"pending_read"`
-	WriteBytes   int    `json:"write_bytes"`
-	CloseAtStart bool   `json:"close_before_ready"`
+	Index         int    `json:"case"`
+	Behaviour     string `json:"behaviour"`
+	DelayMs       int    `json:"agent_delay_ms"`
+	TermDelayMs   int    `json:"termination_delay_ms"`
+	PendingRead   bool   `json:"pending_read"`
+	WriteBytes    int    `json:"write_bytes"`
+	CloseAtStart  bool   `json:"close_before_ready"`
+	Grandchild    bool   `json:"descendant_holds_stderr"`
+	BlockedWrite  bool   `json:"write_blocked_on_full_pipe"`
+	SecondCloseMs int    `json:"second_close_after_ms"` // -1: a single Close
 }
 
 type lockedBuffer struct {
@@ -118,16 +149,53 @@ func (l *lockedBuffer) String() string {
 	return l.b.String()
 }
 
+// closeReturn is what one Close() call observed when it returned.
+type closeReturn struct {
+	Err     error
+	Latency time.Duration
+	State   string // /proc state of the agent pid at the moment of return
+	Ours    bool   // the pid exists and is (still) a child of this process
+	Exists  bool
+	Reaped  bool
+}
+
+// killMarked kills the processes whose environment carries VERIF_C35_GC_MARK=mark.
+// pid > 0 restricts the search to that process.
+func killMarked(mark string, pid int) int {
+	want := "VERIF_C35_GC_MARK=" + mark + "\x00"
+	check := func(p int) bool {
+		env, err := os.ReadFile(fmt.Sprintf("/proc/%d/environ", p))
+		if err != nil || !strings.Contains(string(env)+"\x00", want) {
+			return false
+		}
+		return syscall.Kill(p, syscall.SIGKILL) == nil
+	}
+	if pid > 0 {
+		if check(pid) {
+			return 1
+		}
+		return 0
+	}
+	n := 0
+	ents, _ := os.ReadDir("/proc")
+	for _, e := range ents {
+		if p, err := strconv.Atoi(e.Name()); err == nil && p != os.Getpid() && check(p) {
+			n++
+		}
+	}
+	return n
+}
+
 func c35() {
 	r := vk.Start("C35", "exploration")
 	hb := startHeartbeat()
 	defer hb.Stop()
-	n := r.Pick(64, 400)
+	n := r.Pick(96, 480)
 	rng := r.Rand("cases")
 	behaviours := []string{"self", "stdin", "term", "stubborn"}
 	cases := make([]c35Case, n)
 	for i := range cases {
-		c := c35Case{Index: i, Behaviour: behaviours[i%4]}
+		c := c35Case{Index: i, Behaviour: behaviours[i%4], SecondCloseMs: -1}
 		switch rng.Intn(4) {
 		case 0:
 			c.DelayMs = 0
@@ -151,20 +219,39 @@ func c35() {
 		}
 		c.PendingRead = rng.Intn(2) == 0
 		c.WriteBytes = []int{0, 1, 100, 5000}[rng.Intn(4)]
-		c.CloseAtStart = rng.Intn(8) == 0
+		c.CloseAtStart = rng.Intn(10) == 0
+		// the three extra dimensions cycle deterministically so that every behaviour meets each of them
+		block := (i / 4) % 6
+		c.Grandchild = block == 1 || block == 4 || rng.Intn(6) == 0
+		if (block == 2 || block == 4) && c.Behaviour != "stdin" {
+			// the agent never reads its stdin; "exits when stdin closes" cannot be combined with that
+			c.BlockedWrite, c.WriteBytes, c.CloseAtStart = true, 0, false
+		}
+		if block == 3 || block == 5 || rng.Intn(8) == 0 {
+			c.SecondCloseMs = []int{0, 20, 300, 1100, 1900}[rng.Intn(5)] + rng.Intn(50)
+		}
 		cases[i] = c
 	}
 	const bound = 30 * time.Second // nominal worst case of Close: termination delay + 1 s + 1 s + kill
 	r.Assume("Close is given 30 s (nominal worst case about 2.5 s); a missing return counts only if the heartbeat control shows no scheduling gap >= 1 s in that window")
 	r.Assume("a zombie counts as exited (the property speaks of the process having exited)")
+	r.Assume("descendants of the agent are outside the property (the code documents that it cannot terminate them); only the agent process itself must be gone")
 	var latMu sync.Mutex
 	latencies := map[string][]float64{}
+	mark := r.Scratch()
 
 	parallel(n, workerCount(), func(i int) {
 		c := cases[i]
 		fmt.Printf("case %d: %s\n", i, vk.JSON(c))
 		cmd := exec.Command(selfBin())
-		cmd.Env = childEnv(roleEnv+"=fake-agent", "VERIF_C35_BEHAVIOUR="+c.Behaviour, fmt.Sprintf("VERIF_C35_DELAY_MS=%d", c.DelayMs))
+		env := childEnv(roleEnv+"=fake-agent", "VERIF_C35_BEHAVIOUR="+c.Behaviour, fmt.Sprintf("VERIF_C35_DELAY_MS=%d", c.DelayMs), "VERIF_C35_GC_MARK="+mark)
+		if c.Grandchild {
+			env = append(env, "VERIF_C35_GRANDCHILD=1")
+		}
+		if c.BlockedWrite {
+			env = append(env, "VERIF_C35_NOREAD=1")
+		}
+		cmd.Env = env
 		stderr := &lockedBuffer{}
 		var st *transport.Stream
 		var err error
@@ -178,19 +265,55 @@ func c35() {
 			return
 		}
 		pid := cmd.Process.Pid
+		gcPid := 0
+		defer func() {
+			if c.Grandchild {
+				if gcPid > 0 {
+					r.Count("descendants_removed", int64(killMarked(mark, gcPid)))
+				}
+			}
+		}()
 		r.Eval(1)
 		ready := false
 		if !c.CloseAtStart {
-			// wait for READY so that the agent's signal disposition is in place
-			buf := make([]byte, 6)
-			if _, err := io.ReadFull(st, buf); err == nil && string(buf) == "READY\n" {
-				ready = true
+			// read the announcement lines byte by byte (nothing else may be consumed)
+			var line []byte
+			one := make([]byte, 1)
+			for len(line) < 64 {
+				if _, err := st.Read(one); err != nil {
+					break
+				}
+				line = append(line, one[0])
+				if one[0] != '\n' {
+					continue
+				}
+				s := strings.TrimSpace(string(line))
+				line = line[:0]
+				if strings.HasPrefix(s, "GC ") {
+					gcPid, _ = strconv.Atoi(strings.TrimPrefix(s, "GC "))
+					if gcPid > 0 {
+						r.Count("descendants_holding_stderr", 1)
+					}
+					continue
+				}
+				if s == "READY" {
+					ready = true
+				}
+				break
 			}
 			if c.WriteBytes > 0 && ready {
 				payload := bytes.Repeat([]byte{'x'}, c.WriteBytes)
 				st.Write(payload)
 				echo := make([]byte, c.WriteBytes)
-				if _, err := io.ReadFull(st, echo); err == nil && bytes.Equal(echo, payload) {
+				got := 0
+				for got < len(echo) {
+					k, err := st.Read(echo[got:])
+					got += k
+					if err != nil {
+						break
+					}
+				}
+				if got == len(echo) && bytes.Equal(echo, payload) {
 					r.Count("echo_roundtrips", 1)
 				}
 			}
@@ -210,62 +333,101 @@ func c35() {
 				close(readReturned)
 			}()
 		}
-		closed := make(chan error, 1)
-		t0 := time.Now()
-		go func() {
-			var cerr error
-			r.Guard(c, func() { cerr = st.Close() })
-			closed <- cerr
-		}()
-		var closeErr error
-		returned := false
-		// control-relative watchdog: a window of `bound` counts only if the heartbeat shows no
-		// scheduling gap >= 1 s inside it; otherwise another window is waited (at most five)
-		for window := 0; window < 5 && !returned; window++ {
-			w0 := time.Now()
+		writeReturned := make(chan int, 1)
+		writeBlocked := false
+		if c.BlockedWrite && ready {
+			go func() {
+				k, _ := st.Write(make([]byte, 256*1024)) // the pipe takes 64 KiB, nobody reads
+				writeReturned <- k
+			}()
 			select {
-			case closeErr = <-closed:
-				returned = true
-			case <-time.After(bound):
-				gap := hb.MaxGapSince(w0)
-				if gap >= time.Second {
-					r.Count("watchdog_windows_discarded_unhealthy", 1)
-					continue
-				}
-				state, _, alive := procState(pid)
-				r.Violation(map[string]string{"rule": "close-did-not-return", "behaviour": c.Behaviour},
-					fmt.Sprintf("Close() on the stream of a %q agent did not return within %v (heartbeat max gap in that window %v; agent process alive=%v state=%s)", c.Behaviour, time.Since(t0).Round(time.Second), gap, alive, state),
-					map[string]any{"case": c, "agent_stderr": stderr.String()})
-				window = 99
+			case <-writeReturned:
+			case <-time.After(150 * time.Millisecond):
+				writeBlocked = true
+				r.Count("writes_blocked_when_close_was_called", 1)
 			}
 		}
-		if !returned {
-			if r.Violations() == 0 {
-				r.Inconclusive("Close did not return on an unhealthy machine")
+
+		// One or two overlapping Close calls.
+		nClose := 1
+		if c.SecondCloseMs >= 0 {
+			nClose = 2
+		}
+		t0 := time.Now()
+		done := make([]chan closeReturn, nClose)
+		for k := 0; k < nClose; k++ {
+			done[k] = make(chan closeReturn, 1)
+			go func(k int) {
+				if k == 1 {
+					time.Sleep(time.Duration(c.SecondCloseMs) * time.Millisecond)
+				}
+				start := time.Now()
+				var cr closeReturn
+				r.Guard(c, func() { cr.Err = st.Close() })
+				state, ppid, exists := procState(pid) // one snapshot, taken as Close returns
+				cr.State, cr.Exists = state, exists
+				cr.Ours = exists && ppid == os.Getpid()
+				cr.Reaped = !cr.Exists
+				cr.Latency = time.Since(start)
+				done[k] <- cr
+			}(k)
+		}
+		returns := make([]*closeReturn, nClose)
+		hung := false
+		for k := 0; k < nClose && !hung; k++ {
+			// control-relative watchdog: a window of `bound` counts only if the heartbeat shows no
+			// scheduling gap >= 1 s inside it; otherwise another window is waited (at most five)
+			for window := 0; window < 5 && returns[k] == nil && !hung; window++ {
+				w0 := time.Now()
+				select {
+				case cr := <-done[k]:
+					returns[k] = &cr
+				case <-time.After(bound):
+					gap := hb.MaxGapSince(w0)
+					if gap >= time.Second {
+						r.Count("watchdog_windows_discarded_unhealthy", 1)
+						continue
+					}
+					state, _, alive := procState(pid)
+					r.Violation(map[string]string{"rule": "close-did-not-return", "behaviour": c.Behaviour, "descendant": fmt.Sprint(c.Grandchild), "blocked_write": fmt.Sprint(writeBlocked), "close_call": fmt.Sprint(k + 1)},
+						fmt.Sprintf("Close() call %d of %d on the stream of a %q agent did not return within %v (heartbeat max gap in that window %v; agent process alive=%v state=%s; descendant holding stderr=%v; write blocked=%v)", k+1, nClose, c.Behaviour, time.Since(t0).Round(time.Second), gap, alive, state, c.Grandchild, writeBlocked),
+						map[string]any{"case": c, "agent_stderr": stderr.String()})
+					hung = true
+				}
 			}
+			if returns[k] == nil && !hung {
+				r.Inconclusive("Close did not return on an unhealthy machine")
+				hung = true
+			}
+		}
+		if hung {
 			syscall.Kill(pid, syscall.SIGKILL)
-			select {
-			case <-closed:
-			case <-time.After(10 * time.Second):
+			if gcPid > 0 {
+				killMarked(mark, gcPid) // lets a Close that waits for the stderr copy finish
+			}
+			for k := range done {
+				if returns[k] == nil {
+					select {
+					case <-done[k]:
+					case <-time.After(10 * time.Second):
+					}
+				}
 			}
 			return
 		}
-		lat := time.Since(t0)
-		// The process must be gone: reaped by Close (ProcessState set), or at least exited.
-		state, ppid, exists := procState(pid)
-		reaped := cmd.ProcessState != nil
-		ours := exists && ppid == os.Getpid()
-		if !reaped && ours && state != "Z" {
-			r.Violation(map[string]string{"rule": "process-alive-after-close", "behaviour": c.Behaviour},
-				fmt.Sprintf("Close() returned (error %v) after %v but the %q agent process %d is still running (state %s)", closeErr, lat, c.Behaviour, pid, state),
-				map[string]any{"case": c, "agent_stderr": stderr.String(), "latency_ms": lat.Milliseconds()})
-			syscall.Kill(pid, syscall.SIGKILL)
-		} else if !reaped && ours {
-			r.Count("exited_but_not_reaped", 1)
+		// Every Close that returned must have found the agent process gone.
+		for k, cr := range returns {
+			if cr.Ours && cr.State != "Z" {
+				r.Violation(map[string]string{"rule": "process-alive-after-close", "behaviour": c.Behaviour, "close_call": fmt.Sprint(k + 1), "of": fmt.Sprint(nClose)},
+					fmt.Sprintf("Close() call %d of %d returned (error %v) after %v but the %q agent process %d was still running (state %s)", k+1, nClose, cr.Err, cr.Latency, c.Behaviour, pid, cr.State),
+					map[string]any{"case": c, "agent_stderr": stderr.String(), "latency_ms": cr.Latency.Milliseconds()})
+			} else if cr.Ours {
+				r.Count("exited_but_not_reaped_at_return", 1)
+			}
+			r.Count(fmt.Sprintf("close_call_%d_returns", k+1), 1)
 		}
-		if reaped && ours {
-			// cannot happen: a reaped pid that is again our child would be a new process
-			r.Count("pid_reused_by_own_child", 1)
+		if state, ppid, exists := procState(pid); exists && ppid == os.Getpid() && state != "Z" {
+			syscall.Kill(pid, syscall.SIGKILL) // already reported above
 		}
 		if err := syscall.Kill(pid, 0); err == syscall.ESRCH {
 			r.Count("kill0_esrch", 1)
@@ -290,6 +452,14 @@ func c35() {
 				r.Count("pending_read_still_blocked_5s_after_close", 1) // recorded only
 			}
 		}
+		if writeBlocked {
+			select {
+			case <-writeReturned:
+				r.Count("blocked_write_unblocked", 1)
+			case <-time.After(5 * time.Second):
+				r.Count("blocked_write_still_blocked_5s_after_close", 1) // recorded only
+			}
+		}
 		// give the stderr forwarder a moment to drain (recorded coverage only)
 		time.Sleep(10 * time.Millisecond)
 		seen := stderr.String()
@@ -301,12 +471,31 @@ func c35() {
 			}
 		}
 		r.Count("ended:"+c.Behaviour+":"+how, 1)
-		r.Distinct(strings.Join([]string{c.Behaviour, how, strings.Join(marks, "+"), bucket(c.DelayMs, 0, 100, 850, 1500), bucket(c.TermDelayMs, 0, 100), fmt.Sprint(c.PendingRead), fmt.Sprint(ready)}, "|"))
+		if gcPid > 0 {
+			if _, _, alive := procState(gcPid); alive {
+				r.Count("descendants_alive_after_close", 1) // expected: they outlive the agent
+			}
+			r.Count("descendant:"+c.Behaviour, 1)
+		}
+		if writeBlocked {
+			r.Count("blocked_write:"+c.Behaviour, 1)
+		}
+		if nClose == 2 {
+			r.Count("double_close:"+c.Behaviour, 1)
+		}
+		r.Distinct(strings.Join([]string{c.Behaviour, how, strings.Join(marks, "+"), bucket(c.DelayMs, 0, 100, 850, 1500), bucket(c.TermDelayMs, 0, 100), fmt.Sprint(c.PendingRead), fmt.Sprint(ready),
+			fmt.Sprint(gcPid > 0), fmt.Sprint(writeBlocked), bucket(c.SecondCloseMs, -1, 100, 1000)}, "|"))
 		latMu.Lock()
-		latencies[c.Behaviour] = append(latencies[c.Behaviour], lat.Seconds())
+		latencies[c.Behaviour] = append(latencies[c.Behaviour], returns[0].Latency.Seconds())
 		latMu.Unlock()
-		r.Sample(map[string]any{"case": c, "close_latency_ms": lat.Milliseconds(), "ended": how, "agent_saw": marks, "close_error": fmt.Sprint(closeErr)})
+		errs := make([]string, len(returns))
+		for k, cr := range returns {
+			errs[k] = fmt.Sprint(cr.Err)
+		}
+		r.Sample(map[string]any{"case": c, "close_latency_ms": returns[0].Latency.Milliseconds(), "ended": how, "agent_saw": marks, "close_errors": errs})
 	})
+	// descendants of agents that were closed before they announced themselves
+	r.Count("descendants_removed_by_final_scan", int64(killMarked(mark, 0)))
 	lat := map[string]any{}
 	for b, v := range latencies {
 		sort.Float64s(v)
@@ -314,10 +503,14 @@ func c35() {
 	}
 	r.Note("close_latency_recorded_not_judged", lat)
 	r.Note("heartbeat_max_gap_ms", hb.Max().Milliseconds())
-	// liveness of the escalation sensor: stubborn agents must have been killed by a signal
-	if r.Counter("ended:stubborn:signal:killed") == 0 && r.Violations() == 0 {
-		r.Inconclusive("no stubborn agent was observed to be killed")
-		fmt.Println("ERROR: C35 never observed the kill escalation")
+	// liveness of the sensors
+	if r.Violations() == 0 {
+		for _, need := range []string{"ended:stubborn:signal:killed", "descendant:stubborn", "descendant:self", "blocked_write:stubborn", "blocked_write:term", "double_close:stubborn", "close_call_2_returns"} {
+			if r.Counter(need) == 0 {
+				r.Inconclusive("workload dimension never reached: " + need)
+				fmt.Println("ERROR: C35 never observed " + need)
+			}
+		}
 	}
-	r.Finish("one case = real transport.NewStream over a fake agent process (behaviour × agent delay × termination delay × pending Read × payload), Close() under the control-relative watchdog, then /proc and wait status of the agent; distinct = (behaviour, how the agent ended, what the agent noticed, delay buckets, pending read)", r.Pick(10, 16))
+	r.Finish("one case = real transport.NewStream (with a stderr receiver) over a fake agent process (behaviour × agent delay × termination delay × pending Read × payload × descendant holding stderr × Write blocked on a full pipe × second overlapping Close), every Close() under the control-relative watchdog, /proc state of the agent at each return; distinct = (behaviour, how the agent ended, what the agent noticed, delay buckets, pending read, descendant, blocked write, second-close delay bucket)", r.Pick(12, 20))
 }
